@@ -15,6 +15,7 @@ def check(ctx, rep):
     m = QModel(ctx, rep)
     if not m.ok:
         return
+    B.rule_last_drop_stops(m, rep)
     flag = B.rule_stop(m, rep)
     B.rule_run_exit(m, rep, flag)
     B.rule_same_sender(m, rep)
